@@ -526,7 +526,7 @@ def _events(lw):
     return list(next(iter(ps)))
 
 
-@family("LOWER.expr", props=["C01", "C03", "C05", "C14"],
+@family("LOWER.expr", props=["C01", "C03", "C05", "C14", "C12"],
         functions=[LOW + ".v_BinaryExpression", LOW + ".v_AssignmentExpression", LOW + ".v_PrimaryExpression", LOW + ".v_AffixExpression", LOW + ".v_VariableDeclaration",
                    LOW + ".v_CastExpression", LOW + ".v_CallExpression", LOW + ".v_LiteralExpression", LOW + ".v_Function", LOW + ".__GetFunctionName",
                    LOW + ".Context.LookupVariableScope", LOW + ".Context.RegisterFunctionLocalVariable", LOW + ".Context.OnEnterFunction", LOW + ".Context.InAssignment",
@@ -596,14 +596,16 @@ def lower_expr(R):
             R.check(f"LOWER.AffixExpression[{aname},{oname}]", LOW + ".v_AffixExpression", ok and not lw.problems,
                     detail=f"emitted {ev}; yields {type(v).__name__}; {'; '.join(lw.problems[:2])}")
     # declarations
-    for init in (False, True):
-        lw = Lowering()
+    # (for every state of the function's table of locals: the name may already be a local of the function -- a sibling scope declared it --
+    # and the declaration must still create its own zero-initialised variable when control reaches it)
+    for init, prior in itertools.product((False, True), (False, True)):
+        lw = Lowering(locals_=["v", "w"] if prior else [])
         node = a.VariableDeclaration(I, "v", ag.E("init", I) if init else None)
         lw.run(node)
         ev = _events(lw)
         want = [("i", ("declare", "v"))] + ([("e", "init"), ("i", ("store", "FUNCTION_LOCAL", "v", "init"))] if init else []) + [("exit",)]
-        R.check(f"LOWER.VariableDeclaration[{'init' if init else 'noinit'}]", LOW + ".v_VariableDeclaration", ev == want and lw.ctx.LookupVariableScope("v") == ir.VariableAccessScope.FUNCTION_LOCAL,
-                detail=f"emitted {ev}, expected {want}")
+        R.check(f"LOWER.VariableDeclaration[{'init' if init else 'noinit'}{',name-declared-before' if prior else ''}]", LOW + ".v_VariableDeclaration",
+                ev == want and lw.ctx.LookupVariableScope("v") == ir.VariableAccessScope.FUNCTION_LOCAL, detail=f"emitted {ev}, expected {want}")
     # a new function forgets the locals and parameters of the previous one
     lw = Lowering(arg_types={"q": ir.IntegerType()}, locals_=["tmp"])
     lw.ctx.OnLeaveFunction()
